@@ -205,10 +205,37 @@ static void p4_run(uint64_t idx, vh_rng_t * r) {
     vh_ctx_free(v);
 }
 
+/* SIZES: nothing bounds the length of a unit, and a unit that is rejected travels on as the text of its error. Units and pushed texts of
+ * 150..300 characters with a quote (or two, or another special character) at EVERY offset around the places where a 255-character limit,
+ * the description and the separator meet; the error is then reported through the error query, counted, cleared. */
+static uint64_t p5_count(int thorough) { (void) thorough; return vh_scaled(6 * 150); }
+static void p5_run(uint64_t idx, vh_rng_t * r) {
+    static stream_t s; c01_cfg_t c; size_t q = 150 + (size_t) (idx % 150), tail, i, start; int variant = (int) (idx / 150) % 6;
+    static const char * const codes[] = { "-100", "7", "-363", "-230", "0", "-32768", "32767", "-350" };
+    static const char special[] = { '"', '"', '\'', ';', '\n', '"' };
+    s.n = 0;
+    tail = (idx & 1) ? 1 + vh_below(r, 3) : 20 + vh_below(r, 60);
+    if (variant < 3) { puts_(&s, variant == 2 ? "XYZ:UNDEFINED " : "XYZ "); putc_(&s, variant == 1 ? '"' : '\''); }
+    else { puts_(&s, "SYST:PUSH "); puts_(&s, codes[vh_below(r, 8)]); puts_(&s, variant == 4 ? ",\"" : ",'"); }
+    start = (variant < 3) ? 0 : s.n; /* offsets are counted in the text that becomes the error's device-dependent part */
+    while (s.n - start < q) putc_(&s, 'a' + (int) ((s.n * 7) % 26));
+    putc_(&s, special[variant]); if (variant == 1 || variant == 4) putc_(&s, '"'); /* inside "..." a quote is written doubled */
+    if (variant == 5) { putc_(&s, 'b'); putc_(&s, '"'); putc_(&s, '"'); }
+    for (i = 0; i < tail; i++) putc_(&s, 'A' + (int) (i % 26));
+    putc_(&s, (variant == 1 || variant == 4) ? '"' : '\'');
+    puts_(&s, vh_chance(r, 1, 2) ? "\nSYST:ERR?\n" : ";:SYST:ERR:COUN?;:SYST:ERR?\r\n");
+    puts_(&s, "SYST:ERR?;*CLS\n");
+    cfg_random(r, &c, s.n); c.bufsize = s.n + 1 + vh_below(r, 40); c.queue_len = 1 + (int) vh_below(r, 3); c.heap_len = vh_chance(r, 1, 3) ? 2 + vh_below(r, 300) : 300 + vh_below(r, 200); c.mode = (int) (idx % 3);
+    vh_sub = q;
+    one(&s, &c, "long unit reported as error text");
+    vh_count("sizes.long_units_reported_through_the_error_query", 1);
+    vh_distinct(vh_hash(s.b, s.n, 6));
+}
+
 int main(int argc, char ** argv) {
-    static const vh_phase_t phases[] = { { "generated and mutated streams", p0_count, p0_run }, { "truncation at every byte", p1_count, p1_run }, { "direct line parse", p2_count, p2_run }, { "long histories", p3_count, p3_run }, { "error queue at its size limits", p4_count, p4_run } };
+    static const vh_phase_t phases[] = { { "generated and mutated streams", p0_count, p0_run }, { "truncation at every byte", p1_count, p1_run }, { "direct line parse", p2_count, p2_run }, { "long histories", p3_count, p3_run }, { "error queue at its size limits", p4_count, p4_run }, { "long units reported as error texts", p5_count, p5_run } };
     vh_require("mode.0"); vh_require("mode.1"); vh_require("mode.2"); vh_require("mode.3"); vh_require("geometry.stream_longer_than_buffer");
     vh_require("geometry.stream_ends_at_physical_end_of_buffer"); vh_require("streams.mutated"); vh_require("truncation.streams"); vh_require("history.sequences");
-    vh_require("queue_boundary.cases");
-    return vh_main(argc, argv, "C01", phases, 5);
+    vh_require("queue_boundary.cases"); vh_require("sizes.long_units_reported_through_the_error_query");
+    return vh_main(argc, argv, "C01", phases, 6);
 }
